@@ -1,6 +1,7 @@
 package main
 
 import (
+	"encoding/json"
 	"fmt"
 	"strconv"
 	"strings"
@@ -125,6 +126,84 @@ func init() {
 					cw.add(o.op, o.impl, o.label, o.prop)
 				}
 			}
+		}
+		// several clients whose devices all close the connection at the authentication, at the same moment; and goroutines
+		// that read requests from JSON text at the same time (numbers of the same data types): results as when alone
+		{
+			k := 6
+			res := make([]string, k)
+			var wg3 sync.WaitGroup
+			start3 := make(chan struct{})
+			for i := 0; i < k; i++ {
+				wg3.Add(1)
+				go func(i int) {
+					defer wg3.Done()
+					s, err := newSession(fmt.Sprintf("eofuser%d", i), "pw", fmt.Sprintf("eofkey%d", i), 300*time.Millisecond, 1)
+					if err != nil {
+						return
+					}
+					c := &callSpec{kind: "S", dialOk: true, writeOk: true, reqs: []rscp.Message{{Tag: rscp.INFO_REQ_UTC_TIME, DataType: rscp.None}},
+						auth: replySpec{behaviour{kind: "closeBefore"}, "X"}, user: replySpec{behaviour{kind: "closeBefore"}, "X"}}
+					<-start3
+					res[i] = s.call(c) + " | " + s.call(c)
+					s.close()
+				}(i)
+			}
+			close(start3)
+			wg3.Wait()
+			prop := "pass"
+			for _, r := range res {
+				if !strings.HasPrefix(r, "err io") {
+					prop = "FAIL C17 clients whose devices close at the authentication: " + trunc(r, 100)
+				}
+			}
+			cw.add("skip", "skip", "N conc auth-eof-together", prop)
+			texts := []string{`{"Tag":"EMS_REQ_SET_POWER_VALUE","DataType":"Int32","Value":%d}`, `{"Tag":"BAT_INDEX","DataType":"UInt16","Value":%d}`,
+				`{"Tag":12345,"DataType":"Double64","Value":%d.5}`, `{"Tag":12346,"DataType":"ByteArray","Value":[%d,2,3]}`, `{"Tag":12347,"DataType":"Uint64","Value":%d}`}
+			bad := make([]string, 8)
+			var wg4 sync.WaitGroup
+			for w := 0; w < 8; w++ {
+				wg4.Add(1)
+				go func(w int) {
+					defer wg4.Done()
+					for round := 0; round < 400; round++ {
+						v := (w*1000 + round) % 250
+						for ti, t := range texts {
+							var m rscp.Message
+							js := fmt.Sprintf(t, v)
+							if err := json.Unmarshal([]byte(js), &m); err != nil {
+								bad[w] = "error " + err.Error() + " for " + js
+								continue
+							}
+							want := fmt.Sprint(v)
+							got := ""
+							switch x := m.Value.(type) {
+							case int32:
+								got = fmt.Sprint(x)
+							case uint16:
+								got = fmt.Sprint(x)
+							case float64:
+								got = fmt.Sprint(int(x))
+							case []byte:
+								got = fmt.Sprint(x[0])
+							case uint64:
+								got = fmt.Sprint(x)
+							}
+							if got != want {
+								bad[w] = fmt.Sprintf("text %d: %s was read as %v", ti, js, m.Value)
+							}
+						}
+					}
+				}(w)
+			}
+			wg4.Wait()
+			prop = "pass"
+			for _, b := range bad {
+				if b != "" {
+					prop = "FAIL C17 JSON requests read concurrently: " + trunc(b, 160)
+				}
+			}
+			cw.add("skip", "skip", "N conc json-readers", prop)
 		}
 		// clients over real TCP, each with its own device and its own connection time-out, connecting and reconnecting at
 		// the same time (the race detector watches; every reply has to be the client's own)
